@@ -46,8 +46,11 @@ func genReplay(t *rapid.T) ReplayCase {
 	var c ReplayCase
 	c.UDP = rapid.Bool().Draw(t, "udp")
 	c.NoWait = rapid.Bool().Draw(t, "noWait")
-	c.What = rapid.IntRange(0, 4).Draw(t, "what")
+	c.What = rapid.SampledFrom([]int{0, 1, 2, 3, 4, 5, 5}).Draw(t, "what")
 	c.Sessions = rapid.SampledFrom([]int{1, 1, 2, 3}).Draw(t, "sessions")
+	if c.What == 5 && c.Sessions < 2 {
+		c.Sessions = 2 // a later open session request exists only on a multiplexed connection
+	}
 	c.Boundary = rapid.IntRange(1, 8).Draw(t, "boundary")
 	// 6500 ms is longer than the server's 5 s session clean-up tick: the
 	// recorded sessions are gone from its table when the copy arrives
@@ -148,6 +151,20 @@ func propReplay(c ReplayCase) (o pbt.Outcome) {
 				k = len(segs)
 			}
 			tcpCopy = raw[:segs[k-1].Ext.End]
+		case 5:
+			// A later open session request of the multiplexed connection, cut out
+			// and presented as the first segment of a new connection under the
+			// nonce it was sealed with (first nonce + number of earlier AEAD
+			// operations): bytes the server has accepted, re-framed by an observer
+			// who knows no key.
+			tcpCopy = raw[:segs[0].Ext.End]
+			for k := 1; k < len(segs); k++ {
+				if segs[k].Meta.Proto == refproto.OpenSessionRequest && len(segs[k].MetaNonce) == refproto.NonceLen {
+					tcpCopy = append(append([]byte(nil), segs[k].MetaNonce...), raw[segs[k].Ext.NonceEnd:segs[k].Ext.End]...)
+					o.Label("splicedLaterOpenRequest")
+					break
+				}
+			}
 		default:
 			tcpCopy = raw[:segs[0].Ext.End]
 		}
